@@ -280,6 +280,7 @@ static int
 move_thread_to_final(const char *src, const char *dst)
 {
 	char buffer[1024];
+	int ret = 0;
 
 	FILE *infile = fopen(src, "r");
 
@@ -291,16 +292,35 @@ move_thread_to_final(const char *src, const char *dst)
 	FILE *outfile = fopen(dst, "w");
 
 	if (outfile == NULL) {
-		err("fopen(%s) failed:", src);
+		err("fopen(%s) failed:", dst);
+		fclose(infile);
 		return -1;
 	}
 
 	size_t bytes;
-	while ((bytes = fread(buffer, 1, sizeof(buffer), infile)) > 0)
-		fwrite(buffer, 1, bytes, outfile);
+	while ((bytes = fread(buffer, 1, sizeof(buffer), infile)) > 0) {
+		if (fwrite(buffer, 1, bytes, outfile) != bytes) {
+			err("fwrite(%s) failed:", dst);
+			ret = -1;
+			break;
+		}
+	}
 
-	fclose(outfile);
+	if (ferror(infile)) {
+		err("fread(%s) failed:", src);
+		ret = -1;
+	}
+
+	if (fclose(outfile) != 0) {
+		err("fclose(%s) failed:", dst);
+		ret = -1;
+	}
+
 	fclose(infile);
+
+	/* Keep the source if the copy is not complete */
+	if (ret != 0)
+		return -1;
 
 	if (remove(src) != 0) {
 		err("remove(%s) failed:", src);
@@ -323,33 +343,44 @@ move_thdir_to_final(const char *thdir, const char *thdir_final)
 
 	struct dirent *dirent;
 	const char *prefix = "stream.";
-	while ((dirent = readdir(dir)) != NULL) {
-		/* It should only contain stream.* directories, skip others */
-		if (strncmp(dirent->d_name, prefix, strlen(prefix)) != 0)
-			continue;
 
-		char thread[PATH_MAX];
-		if (snprintf(thread, PATH_MAX, "%s/%s", thdir,
-				    dirent->d_name)
-				>= PATH_MAX) {
-			err("snprintf: path too large: %s/%s", thdir,
-					dirent->d_name);
-			ret = 1;
-			continue;
+	/* Move the metadata in a second pass and only if the rest was moved
+	 * without errors, so the stream is never seen as finished in the
+	 * final directory before all its events are there. */
+	for (int pass = 0; pass < 2 && ret == 0; pass++) {
+		rewinddir(dir);
+		while ((dirent = readdir(dir)) != NULL) {
+			/* It should only contain stream.* directories, skip others */
+			if (strncmp(dirent->d_name, prefix, strlen(prefix)) != 0)
+				continue;
+
+			int is_metadata = (strcmp(dirent->d_name, "stream.json") == 0);
+			if (is_metadata != pass)
+				continue;
+
+			char thread[PATH_MAX];
+			if (snprintf(thread, PATH_MAX, "%s/%s", thdir,
+					    dirent->d_name)
+					>= PATH_MAX) {
+				err("snprintf: path too large: %s/%s", thdir,
+						dirent->d_name);
+				ret = 1;
+				continue;
+			}
+
+			char thread_final[PATH_MAX];
+			if (snprintf(thread_final, PATH_MAX, "%s/%s", thdir_final,
+					    dirent->d_name)
+					>= PATH_MAX) {
+				err("snprintf: path too large: %s/%s", thdir_final,
+						dirent->d_name);
+				ret = 1;
+				continue;
+			}
+
+			if (move_thread_to_final(thread, thread_final) != 0)
+				ret = 1;
 		}
-
-		char thread_final[PATH_MAX];
-		if (snprintf(thread_final, PATH_MAX, "%s/%s", thdir_final,
-				    dirent->d_name)
-				>= PATH_MAX) {
-			err("snprintf: path too large: %s/%s", thdir_final,
-					dirent->d_name);
-			ret = 1;
-			continue;
-		}
-
-		if (move_thread_to_final(thread, thread_final) != 0)
-			ret = 1;
 	}
 
 	closedir(dir);
